@@ -105,7 +105,9 @@ func (s *massiveScenario) classes() []string {
 	if s.sp.LeadBlank > 0 {
 		cl = append(cl, "leading-blank")
 	}
-	if len(s.sp.UnitPerRoot) > 0 {
+	if len(s.sp.UnitPerRoot) > 0 || differingFirstIndents(s.parts) {
+		// the first indented line is not indented alike under every root: the unit the
+		// (shared) parser learns depends on which block it sees first
 		cl = append(cl, "mixed-units")
 	}
 	if len(s.malform) > 0 {
@@ -737,4 +739,26 @@ func diskDetail(out *Outcome) string {
 		fmt.Fprintf(&sb, "  #%d %s %s task=%s err=%s inj=%v\n", o.Idx, o.Op, o.Path, o.Task, o.Err, o.Injected)
 	}
 	return sb.String()
+}
+
+// differingFirstIndents reports whether the first indented line of the root parts is not
+// indented with the same string everywhere.
+func differingFirstIndents(parts [][]byte) bool {
+	seen := ""
+	for _, p := range parts {
+		for _, l := range strings.Split(string(p), "\n") {
+			t := strings.TrimLeft(l, " \t")
+			if t == "" || len(t) == len(l) {
+				continue
+			}
+			ind := l[:len(l)-len(t)]
+			if seen == "" {
+				seen = ind
+			} else if seen != ind {
+				return true
+			}
+			break
+		}
+	}
+	return false
 }
